@@ -232,6 +232,26 @@ def execute(case):
                 x_links = "consistent"
                 built = True
                 log.append((i, "build", label, type(obj).__name__))
+            elif k == "build_nested":
+                # a live project with a MetaModule built INSIDE another MetaModule's project (and a
+                # Sampler with an effect): back references that only API-built graphs have
+                sess = builder.Session(layout=case.get("layout", 2))
+                T = builder.TYPE_NAMES.index
+                r = seeds.rng(op.get("seed", 0), "c05nested")
+                pre = [{"k": "mod", "t": T("MetaModule")}, {"k": "embed", "m": 0, "op": {"k": "mod", "t": T("MetaModule")}},
+                       {"k": "embed", "m": 0, "op": {"k": "embed", "m": 0, "op": {"k": "mod", "t": r.randrange(1000), "any": False}}},
+                       {"k": "embed", "m": 0, "op": builder.gen_op(r, {"udscn": 1})}, builder.gen_op(r, {"udscn": 1}),
+                       {"k": "mod", "t": T("Sampler")}]
+                for bop in pre + [builder.gen_op(r) for _ in range(op.get("n", 8))]:
+                    sess.apply(bop)
+                obj = sess.project
+                if op.get("inner"):
+                    # the user saves the embedded project of the first MetaModule on its own
+                    obj = next(m for m in sess.mods() if type(m).__name__ == "MetaModule").project
+                label = "built_nested:%s" % op.get("seed", 0)
+                x_links = "consistent"
+                built = True
+                log.append((i, "build_nested", label))
             elif k == "build_synth":
                 # a live module of the given type with a long name and a few edited slots, wrapped in a Synth
                 from rv.synth import Synth
@@ -333,6 +353,31 @@ def execute(case):
                 pos = "first" if fault["at"] == 0 else "last" if fault["at"] == nw - 1 else ("header" if fault["at"] % 3 != 2 else "payload")
                 states.append(seeds.h64("fault", fault["kind"], pos, type(exc).__name__))
                 log.append((i, "save_fault", fault["kind"], fault["at"], type(exc).__name__, len(part)))
+            elif k == "abandon":
+                # a save that is started and abandoned: the chunks() generator is advanced `at`
+                # chunks and then dropped (closed); the object must be unchanged and still saveable
+                if Y is None:
+                    continue
+                s0 = snapshot.snapshot(obj)
+                gen = obj.chunks()
+                n = 0
+                try:
+                    for _ in range(op.get("at", 0)):
+                        next(gen)
+                        n += 1
+                except StopIteration:
+                    pass
+                gen.close()
+                fired["save_abandoned"] = fired.get("save_abandoned", 0) + 1
+                s1 = snapshot.snapshot(obj)
+                pure_check(s0, s1, violations, i, "abandoned")
+                Yc, exc2, _, _ = save(obj)
+                if exc2 is not None or Yc != Y:
+                    d = first_diff_chunk(Y, Yc) if exc2 is None else {"chunk": "exception:" + type(exc2).__name__}
+                    violations.append(_v("clean_save_after_aborted_save_identical", when="abandoned", chunk=d["chunk"], detail={"op": i, "file": label, "at": n}))
+                nontrivial = True
+                states.append(seeds.h64("abandon", min(n, 40)))
+                log.append((i, "abandon", n))
             elif k == "interleave":
                 if Y is None:
                     continue
@@ -415,7 +460,7 @@ def perturbation(r, data, depth=0):
     if depth < 2 and r.random() < 0.2:
         return ["in", r.randrange(8), perturbation(r, data, depth + 1)]
     if r.random() < 0.06:
-        return ["sampler_legacy", r.randrange(4), r.randrange(4)]
+        return ["sampler_legacy", r.randrange(4), r.randrange(6)]
     for _ in range(8):
         if r.random() < 0.55:
             v = r.choice(CVAL_VALUES) if r.random() < 0.7 else r.randint(-(1 << 31), (1 << 31) - 1)
@@ -431,6 +476,8 @@ def generate_for(spec, r, faulty=True):
             kind = r.choice(["write_eio", "write_enospc", "write_cancel", "write_short"])
             at = r.choice([0, 1, 2, r.randrange(3000), r.randrange(3000), 10 ** 6 - 1])
             ops.append({"k": "save_fault", "fault": {"kind": kind, "at": at}})
+        if r.random() < 0.3:
+            ops.append({"k": "abandon", "at": r.choice([0, 1, 2, r.randrange(40), r.randrange(400)])})
         if r.random() < 0.3:
             ops.append({"k": "cycle", "n": 1})
     return ops
@@ -449,6 +496,9 @@ def generate(seed, i, tier="quick"):
     if r.random() < 0.12:
         ops[0] = {"k": "build", "seed": r.getrandbits(30), "n": r.randint(5, 40), "synth": r.randrange(1000) if r.random() < 0.3 else 0}
         ops[1] = {"k": "save"}
+    elif r.random() < 0.05:
+        ops[0] = {"k": "build_nested", "seed": r.getrandbits(30), "n": r.randint(0, 12), "inner": r.random() < 0.5}
+        ops[1] = {"k": "save"}
     return {"property": PROPERTY, "world": "cycles", "layout": 2, "ops": ops}
 
 
@@ -460,9 +510,11 @@ def plan(tier, seed):
     for j in range(0, len(specs), per):
         units.append({"kind": "plain", "specs": specs[j : j + per], "next": specs[(j + per) % len(specs)], "seed": seed, "tier": tier})
     # files as older versions of SunVox / of this library wrote them: legacy Sampler records
-    legacy = [{"src": "fixture", "name": "sampler.sunsynth", "perturb": [["sampler_legacy", 0, v]]} for v in range(4)]
+    legacy = [{"src": "fixture", "name": "sampler.sunsynth", "perturb": [["sampler_legacy", 0, v]]} for v in range(6)]
     units.append({"kind": "plain", "specs": legacy, "next": specs[0], "seed": seed, "tier": tier, "perturbed": True})
     units.append({"kind": "built_synths", "seed": seed, "tier": tier})
+    for j in range(4 if tier == "quick" else 40):
+        units.append({"kind": "built_nested", "seed": seeds.derive(seed, "bn", j) % (1 << 30), "tier": tier, "inner": j % 2 == 1})
     n = 5000 if tier == "quick" else 120000
     chunk = 100
     for i in range(0, n, chunk):
@@ -480,6 +532,23 @@ def run_unit(unit):
                 ops = [{"k": "build_synth", "t": t, "v": v, "n": 4}, {"k": "save"}, {"k": "cycle", "n": 2},
                        {"k": "save_fault", "fault": {"kind": "write_eio", "at": v % 97}}, {"k": "save_fault", "fault": {"kind": "write_cancel", "at": v % 31}}]
                 acc.run(execute, {"property": PROPERTY, "world": "cycles", "layout": 2, "ops": ops})
+        return acc.to_dict()
+    if unit["kind"] == "built_nested":
+        # every write call and every chunk position of a save of an API-built nested graph
+        probe = execute({"property": PROPERTY, "world": "cycles", "layout": 2, "ops": [{"k": "build_nested", "seed": unit["seed"]}, {"k": "save"}]})
+        from .. import builder as _b
+
+        sess_ops = [{"k": "build_nested", "seed": unit["seed"], "inner": bool(unit.get("inner"))}, {"k": "save"}]
+        # number of write calls / chunks: measure on a throw-away build
+        case0 = {"property": PROPERTY, "world": "cycles", "layout": 2, "ops": sess_ops + [{"k": "cycle", "n": 2}]}
+        acc.run(execute, case0)
+        nw = 1200
+        step = 1 if unit.get("tier") != "quick" else 3
+        for kind in ("write_eio", "write_cancel"):
+            ops = list(sess_ops) + [{"k": "save_fault", "fault": {"kind": kind, "at": at}} for at in range(0, nw, step)]
+            acc.run(execute, {"property": PROPERTY, "world": "cycles", "layout": 2, "ops": ops}, seconds=300)
+        ops = list(sess_ops) + [{"k": "abandon", "at": at} for at in range(0, 400, 1 if unit.get("tier") != "quick" else 2)]
+        acc.run(execute, {"property": PROPERTY, "world": "cycles", "layout": 2, "ops": ops}, seconds=300)
         return acc.to_dict()
     if unit["kind"] == "plain":
         for spec in unit["specs"]:
